@@ -612,4 +612,326 @@ example : C05.Spec.octets exKa.fd.header ++ [u8 exKa.fd.code] ++ Spec.keepAliveP
     = [0x2F, 0, 11, 0x01, 0x21, 0x65, 0x87, 0x43, 12, 1, 2, 3, 4, 5, 6, 7, 8] := by decide
 example : WFKeepAlive ⟨⟨⟨0, 0, 5, ⟨⟨1, 0⟩, ⟨1, 0⟩, ⟨1, 0⟩, 0, 0, 0, 1, 0⟩⟩, 12⟩, 4294967295⟩ := by decide
 
+/-! ## NAK (`C06_nak_*`) -/
+
+instance (w : Nat) (l : List Nak.Seg) : Decidable (SegsFit w l) := by unfold SegsFit; infer_instance
+
+/-- valid NAK PDUs: start / end of scope and every offset of every segment request over the full
+    range of the selected FSS width, any number of segment requests that fits the 16-bit data-field
+    length, towards the sender, any configuration -/
+def WFNak (k : Nak) : Prop :=
+  fits (fssWidth k.fd.header.conf.fileFlag) k.startOfScope ∧
+  fits (fssWidth k.fd.header.conf.fileFlag) k.endOfScope ∧
+  SegsFit (fssWidth k.fd.header.conf.fileFlag) k.segs ∧
+  WFBase k.fd 8 1 (2 * fssWidth k.fd.header.conf.fileFlag * (k.segs.length + 1))
+
+instance (k : Nak) : Decidable (WFNak k) := by unfold WFNak; infer_instance
+
+/-- the parameters of 727.0-B-5 §5.2.6: start of scope, end of scope, then the segment requests in
+    list order, every value big-endian in the selected width -/
+def Spec.nakParams (k : Nak) : Bytes :=
+  specPair (fssWidth k.fd.header.conf.fileFlag) k.startOfScope k.endOfScope ++
+  specSegs (fssWidth k.fd.header.conf.fileFlag) k.segs
+
+def Spec.nak (k : Nak) : Bytes := Spec.pdu k.fd (Spec.nakParams k)
+
+private theorem nakParams_length (k : Nak) :
+    (Spec.nakParams k).length = 2 * fssWidth k.fd.header.conf.fileFlag * (k.segs.length + 1) := by
+  simp only [Spec.nakParams, List.length_append, specPair_length, specSegs_length]
+  rw [Nat.mul_add, Nat.mul_comm k.segs.length]; omega
+
+private theorem nak_plen (f c n : Nat) :
+    nakParamLen f c n + 1 = 1 + 2 * fssWidth f * (n + 1) + (if c = 1 then 2 else 0) := by
+  unfold nakParamLen; omega
+
+/-- the constructor accepts every configuration, scope and list of segment requests whose
+    encoding fits the 16-bit data-field length, and yields a valid PDU -/
+theorem C06_nak_new (c : PduConfig) (wf : WFConf c) (s e : Int) (segs : List Nak.Seg)
+    (hn : nakParamLen c.fileFlag c.crcFlag segs.length + 1 ≤ 65535) :
+    ∃ k, Nak.new c s e segs = .ok k ∧ k.startOfScope = s ∧ k.endOfScope = e ∧ k.segs = segs ∧
+      k.fd.header.conf = { c with direction := 1 } ∧
+      (fits (fssWidth c.fileFlag) s → fits (fssWidth c.fileFlag) e → SegsFit (fssWidth c.fileFlag) segs → WFNak k) := by
+  rw [Nak.new_eq c s e segs wf.2.1]
+  have g : ¬ (c.source.width ≠ c.dest.width ∨ 65535 < nakParamLen c.fileFlag c.crcFlag segs.length + 1) := by
+    have := wf.2.2.2.2.2.2.2.2; omega
+  rw [if_neg g]
+  refine ⟨_, rfl, rfl, rfl, rfl, rfl, ?_⟩
+  intro h1 h2 h3
+  refine ⟨h1, h2, h3, ?_, rfl, rfl, rfl, rfl, ?_⟩
+  · exact wf_dirHeader c wf _ _ (by omega) (by omega)
+  · simp only [crcLen]; exact nak_plen _ _ _
+
+/-- more segment requests than the 16-bit data-field length can describe are refused (`ValueError`)
+    by the constructor -/
+theorem C06_nak_too_many (c : PduConfig) (hf : c.fileFlag < 2) (s e : Int) (segs : List Nak.Seg)
+    (hn : 65535 < nakParamLen c.fileFlag c.crcFlag segs.length + 1) :
+    Nak.new c s e segs = .error .value := by
+  rw [Nak.new_eq c s e segs hf, if_pos (Or.inr hn)]
+
+private theorem nak_segW (k : Nak) : segW k.fd.header.largeFileFlagSet = fssWidth k.fd.header.conf.fileFlag :=
+  segW_eq k.fd
+
+/-- **pack = standard layout**, for every valid NAK PDU (any number of segment requests, offsets
+    over the full 32- / 64-bit range) in every header configuration -/
+theorem C06_nak_pack_exact (k : Nak) (wf : WFNak k) : k.pack = .ok (Spec.nak k) := by
+  obtain ⟨h1, h2, h3, w1, _, _, w4, _, _⟩ := wf
+  unfold Nak.pack
+  rw [← nak_segW] at h1 h2 h3
+  rw [pack_spec k.fd w1 (by omega), packPair_ok _ _ _ h1 h2, packSegs_spec _ _ h3]
+  simp only [bind, Except.bind, pure, Except.pure, Spec.nak, Spec.pdu, Spec.nakParams, specOctets, nak_segW,
+    List.append_assoc]
+
+/-- **an offset that does not fit the selected width — start or end of scope, or either offset of
+    any segment request — makes `pack` fail, never truncate**: `ValueError` above 2^32 − 1 without
+    the large-file flag; `struct.error` for negative values and above 2^64 − 1 with the flag -/
+theorem C06_nak_fss_overflow (k : Nak) (wf : C05.WF k.fd.header) (hc : k.fd.code < 256)
+    (h : ¬ fits (fssWidth k.fd.header.conf.fileFlag) k.startOfScope ∨
+         ¬ fits (fssWidth k.fd.header.conf.fileFlag) k.endOfScope ∨
+         ¬ SegsFit (fssWidth k.fd.header.conf.fileFlag) k.segs) :
+    k.pack = .error .value ∨ k.pack = .error .struct := by
+  unfold Nak.pack
+  rw [pack_spec k.fd wf hc]
+  rw [← nak_segW] at h
+  by_cases hs : fits (segW k.fd.header.largeFileFlagSet) k.startOfScope ∧
+      fits (segW k.fd.header.largeFileFlagSet) k.endOfScope
+  · have h3 : ¬ SegsFit (segW k.fd.header.largeFileFlagSet) k.segs := by
+      rcases h with h | h | h
+      · exact absurd hs.1 h
+      · exact absurd hs.2 h
+      · exact h
+    rw [packPair_ok _ _ _ hs.1 hs.2]
+    rcases packSegs_overflow _ _ h3 with e | e <;> simp [bind, Except.bind, e]
+  · have : ¬ fits (segW k.fd.header.largeFileFlagSet) k.startOfScope ∨
+        ¬ fits (segW k.fd.header.largeFileFlagSet) k.endOfScope := by
+      by_cases h1 : fits (segW k.fd.header.largeFileFlagSet) k.startOfScope
+      · right; intro h2; exact hs ⟨h1, h2⟩
+      · left; exact h1
+    rcases packPair_overflow _ _ _ this with e | e <;> simp [bind, Except.bind, e]
+
+/-- **length clauses**: two FSS fields for the scope and two per segment request (+2 with CRC) -/
+theorem C06_nak_len (k : Nak) (wf : WFNak k) :
+    (Spec.nak k).length = k.packetLen ∧
+    k.fd.header.dataFieldLen = (Spec.nak k).length - k.fd.header.headerLen ∧
+    k.fd.header.dataFieldLen = k.packetLen - k.fd.header.headerLen ∧
+    (Spec.nak k).length = k.fd.header.headerLen + 1
+      + 2 * fssWidth k.fd.header.conf.fileFlag * (k.segs.length + 1) + crcLen k.fd.header.conf := by
+  have hl := nakParams_length k
+  have := pdu_len k.fd 8 1 (Spec.nakParams k) (by rw [hl]; exact wf.2.2.2)
+  rw [hl] at this
+  exact this
+
+theorem C06_nak_crc (k : Nak) :
+    (k.fd.header.conf.crcFlag = 1 →
+      Spec.nak k = (C05.Spec.octets k.fd.header ++ [u8 k.fd.code] ++ Spec.nakParams k)
+        ++ Crc.crcTrailer (C05.Spec.octets k.fd.header ++ [u8 k.fd.code] ++ Spec.nakParams k) ∧
+      Crc.crc16 (Spec.nak k) = 0) ∧
+    (k.fd.header.conf.crcFlag ≠ 1 →
+      Spec.nak k = C05.Spec.octets k.fd.header ++ [u8 k.fd.code] ++ Spec.nakParams k) :=
+  pdu_crc k.fd (Spec.nakParams k)
+
+private theorem fd_eta (fd : FileDirective) (n : Nat) (h : fd.header.dataFieldLen = n) :
+    ({ fd with header := { fd.header with dataFieldLen := n } } : FileDirective) = fd := by
+  cases fd with
+  | mk hd c => cases hd; simp_all
+
+/-- **round trip**: decoding the packed PDU returns the identical PDU — same header, scope, and
+    the same segment requests in the same order — for any number of requests and every configuration -/
+theorem C06_nak_roundtrip (k : Nak) (wf : WFNak k) : Nak.unpack (Spec.nak k) = .ok k := by
+  obtain ⟨h1, h2, h3, wb⟩ := wf
+  have hpl := nakParams_length k
+  have wb' : WFBase k.fd 8 1 (Spec.nakParams k).length := by rw [hpl]; exact wb
+  obtain ⟨hp, hlen⟩ := prelude_pdu k.fd 8 1 (Spec.nakParams k) [] wb' (by omega)
+  rw [List.append_nil] at hp
+  have w1 := wb.1
+  have hw := Nak.fssWidth_pos k.fd.header.conf.fileFlag
+  generalize hwd : fssWidth k.fd.header.conf.fileFlag = w at *
+  rw [Nak.unpack_eq, Spec.nak, hp]
+  show Nak.parse _ (k.fd, specOctets k.fd ++ Spec.nakParams k) = _
+  rw [Nak.parse_eq, hwd]
+  have hsl := specOctets_length k.fd w1
+  have hplen : (specOctets k.fd ++ Spec.nakParams k).length = k.fd.headerLen + 2 * w + k.segs.length * (2 * w) := by
+    simp only [List.length_append, hsl, hpl, Nat.mul_add, Nat.mul_comm k.segs.length]; omega
+  have c1 : ¬ k.fd.code ≠ 8 := by have := wb.2.2.2.1; omega
+  have c2 : ¬ (Spec.pdu k.fd (Spec.nakParams k)).length > k.fd.packetLen := by omega
+  have c3 : ¬ (specOctets k.fd ++ Spec.nakParams k).length < k.fd.headerLen + 2 * w := by omega
+  rw [if_neg c1, if_neg c2, if_neg c3]
+  -- the scope
+  have hP : Spec.nakParams k = beBytes w k.startOfScope.toNat ++ beBytes w k.endOfScope.toNat ++ specSegs w k.segs := by
+    simp only [Spec.nakParams, specPair, hwd]
+  have s1 : slice (specOctets k.fd ++ Spec.nakParams k) k.fd.headerLen (k.fd.headerLen + w)
+      = beBytes w k.startOfScope.toNat := by
+    have := slice_params k.fd w1 (Spec.nakParams k) 0 w
+    simp only [Nat.add_zero] at this
+    rw [this, hP]
+    have := slice_eq_of_append [] (beBytes w k.startOfScope.toNat) (beBytes w k.endOfScope.toNat ++ specSegs w k.segs)
+    simpa using this
+  have s2 : slice (specOctets k.fd ++ Spec.nakParams k) (k.fd.headerLen + w) (k.fd.headerLen + w + w)
+      = beBytes w k.endOfScope.toNat := by
+    have := slice_params k.fd w1 (Spec.nakParams k) w (w + w)
+    rw [← Nat.add_assoc] at this
+    rw [this, hP]
+    have := slice_eq_of_append (beBytes w k.startOfScope.toNat) (beBytes w k.endOfScope.toNat) (specSegs w k.segs)
+    simpa using this
+  have hscope : scopeOf k.fd (specOctets k.fd ++ Spec.nakParams k) = (k.startOfScope, k.endOfScope) := by
+    simp only [scopeOf, hwd, s1, s2, beNat_beBytes _ _ h1.2, beNat_beBytes _ _ h2.2,
+      toNat_cast_fits _ _ h1, toNat_cast_fits _ _ h2]
+  rw [hscope]
+  by_cases hs : k.segs = []
+  · have c4 : (specOctets k.fd ++ Spec.nakParams k).length = k.fd.headerLen + 2 * w := by
+      rw [hplen, hs]; simp
+    rw [if_pos c4]
+    cases k
+    simp_all
+  · have hpos : 0 < k.segs.length := List.length_pos_iff.mpr hs
+    have c4 : ¬ (specOctets k.fd ++ Spec.nakParams k).length = k.fd.headerLen + 2 * w := by
+      rw [hplen]
+      have : 0 < k.segs.length * (2 * w) := Nat.mul_pos hpos (by omega)
+      omega
+    have c5 : ¬ ((specOctets k.fd ++ Spec.nakParams k).length - (k.fd.headerLen + 2 * w)) % (2 * w) ≠ 0 := by
+      rw [hplen]
+      have : k.fd.headerLen + 2 * w + k.segs.length * (2 * w) - (k.fd.headerLen + 2 * w) = k.segs.length * (2 * w) := by
+        omega
+      rw [this, Nat.mul_mod_left]
+      omega
+    rw [if_neg c4, if_neg c5]
+    have hd : (specOctets k.fd ++ Spec.nakParams k).drop (k.fd.headerLen + 2 * w) = specSegs w k.segs := by
+      rw [drop_params k.fd w1, hP]
+      apply List.drop_left'
+      simp; omega
+    have hsw : segW k.fd.header.largeFileFlagSet = w := by rw [nak_segW, hwd]
+    rw [hd, ← hsw, parseSegs_spec _ _ (by rw [hsw]; exact h3)]
+    simp only [bind, Except.bind]
+    have hff : k.fd.header.conf.fileFlag < 2 := w1.2.2.2.2.1
+    rw [calcLen_eq' k.fd _ hff]
+    have hdl : k.fd.header.dataFieldLen
+        = nakParamLen k.fd.header.conf.fileFlag k.fd.header.conf.crcFlag k.segs.length + 1 := by
+      rw [nak_plen, hwd]; have := wb.2.2.2.2.2; simpa [crcLen] using this
+    have g : ¬ 65535 < nakParamLen k.fd.header.conf.fileFlag k.fd.header.conf.crcFlag k.segs.length + 1 := by
+      have := w1.2.2.2.2.2.2.2.1; omega
+    rw [if_neg g, fd_eta k.fd _ hdl]
+
+/-- **trailing octets are refused** (by design, `ValueError`): a NAK PDU followed by anything is not
+    decoded — in particular further octets are never folded into segment requests -/
+theorem C06_nak_trailing_refused (k : Nak) (wf : WFNak k) (rest : Bytes) (hr : rest ≠ []) :
+    Nak.unpack (Spec.nak k ++ rest) = .error .value := by
+  obtain ⟨_, _, _, wb⟩ := wf
+  have wb' : WFBase k.fd 8 1 (Spec.nakParams k).length := by rw [nakParams_length k]; exact wb
+  obtain ⟨hp, hlen⟩ := prelude_pdu k.fd 8 1 (Spec.nakParams k) rest wb' (by omega)
+  apply Nak.unpack_longer _ _ _ hp
+  have : 0 < rest.length := List.length_pos_iff.mpr hr
+  simp only [List.length_append, Spec.nak]; omega
+
+theorem C06_nak_eq_repack (k : Nak) (wf : WFNak k) :
+    ∃ k', (k.pack >>= fun b => Nak.unpack b) = .ok k' ∧ k' = k ∧
+      k.beq k' = true ∧ k'.beq k = true ∧ k'.pack = k.pack := by
+  refine ⟨k, ?_, rfl, ?_, ?_, rfl⟩
+  · rw [C06_nak_pack_exact k wf]; exact C06_nak_roundtrip k wf
+  all_goals simp [Nak.beq, beq_refl]
+
+/-- **the `segment_requests` setter keeps the length consistent**: afterwards the PDU is the one a
+    fresh constructor call with the new list gives (or both are refused as too long) -/
+theorem C06_nak_set_segs (c : PduConfig) (hf : c.fileFlag < 2) (s e : Int) (l l' : List Nak.Seg)
+    (hn : nakParamLen c.fileFlag c.crcFlag l.length + 1 ≤ 65535) :
+    (Nak.new c s e l >>= fun k => k.setSegs l') = Nak.new c s e l' := by
+  rw [Nak.new_eq c s e l hf, Nak.new_eq c s e l' hf]
+  by_cases g : c.source.width ≠ c.dest.width
+  · rw [if_pos (Or.inl g), if_pos (Or.inl g)]; rfl
+  · rw [if_neg (by omega)]
+    simp only [bind, Except.bind]
+    rw [Nak.setSegs_eq _ _ hf]
+    by_cases g2 : 65535 < nakParamLen c.fileFlag c.crcFlag l'.length + 1
+    · rw [if_pos g2, if_pos (Or.inr g2)]
+    · rw [if_neg g2, if_neg (by omega)]
+
+/-- **the `file_flag` setter keeps the length consistent**: afterwards the PDU is the one a fresh
+    constructor call with the new flag gives -/
+theorem C06_nak_set_file_flag (c : PduConfig) (hf : c.fileFlag < 2) (s e : Int) (l : List Nak.Seg) (f : Nat)
+    (hf' : f < 2) (hn : nakParamLen c.fileFlag c.crcFlag l.length + 1 ≤ 65535) :
+    (Nak.new c s e l >>= fun k => k.setFileFlag f) = Nak.new { c with fileFlag := f } s e l := by
+  rw [Nak.new_eq c s e l hf, Nak.new_eq { c with fileFlag := f } s e l hf']
+  by_cases g : c.source.width ≠ c.dest.width
+  · rw [if_pos (Or.inl g), if_pos (Or.inl g)]; rfl
+  · rw [if_neg (by omega)]
+    simp only [bind, Except.bind]
+    rw [Nak.setFileFlag_eq _ _ hf']
+    by_cases g2 : 65535 < nakParamLen f c.crcFlag l.length + 1
+    · rw [if_pos g2, if_pos (Or.inr g2)]
+    · have g3 : ¬ (c.source.width ≠ c.dest.width ∨ 65535 < nakParamLen f c.crcFlag l.length + 1) := by omega
+      rw [if_neg g2, if_neg g3]
+
+/-- packed length of a NAK PDU with `n` segment requests in configuration `c` -/
+def nakPacketLen (c : PduConfig) (n : Nat) : Nat :=
+  c.headerLen + 1 + 2 * fssWidth c.fileFlag * (n + 1) + crcLen c
+
+/-- **`get_max_seg_reqs_for_max_packet_size_and_pdu_cfg`**: refused (`ValueError`) when not even
+    the PDU without segment requests fits; otherwise the result `n` is the largest number of
+    segment requests whose PDU stays within the maximum: `len(n) ≤ max < len(n + 1)` -/
+theorem C06_nak_max_seg_reqs (c : PduConfig) (hf : c.fileFlag < 2) (hc : c.crcFlag < 2) (m : Int) :
+    (m < (nakPacketLen c 0 : Nat) → maxSegReqs m c = .error .value) ∧
+    ((nakPacketLen c 0 : Nat) ≤ m →
+      ∃ n, maxSegReqs m c = .ok n ∧ (nakPacketLen c n : Nat) ≤ m ∧ m < (nakPacketLen c (n + 1) : Nat)) := by
+  have hbase : c.headerLen + 1 + (if c.crcFlag ≠ 0 then 2 else 0)
+      + (if c.fileFlag = 0 then 8 else if c.fileFlag = 1 then 16 else 0) = nakPacketLen c 0 := by
+    unfold nakPacketLen crcLen fssWidth
+    have : c.fileFlag = 0 ∨ c.fileFlag = 1 := by omega
+    have : c.crcFlag = 0 ∨ c.crcFlag = 1 := by omega
+    rcases ‹c.fileFlag = 0 ∨ c.fileFlag = 1› with h | h <;> rcases ‹c.crcFlag = 0 ∨ c.crcFlag = 1› with h' | h' <;>
+      simp [h, h']
+  unfold maxSegReqs
+  rw [hbase]
+  have hstep : ∀ n, nakPacketLen c n = nakPacketLen c 0 + n * (2 * fssWidth c.fileFlag) := by
+    intro n
+    unfold nakPacketLen
+    rw [Nat.mul_add, Nat.mul_comm n]; omega
+  constructor
+  · intro h
+    simp [h, bind, Except.bind, throw, throwThe, MonadExceptOf.throw]
+  · intro h
+    have g : ¬ m < (nakPacketLen c 0 : Nat) := by omega
+    obtain ⟨r, hr⟩ : ∃ r : Nat, m - (nakPacketLen c 0 : Nat) = r := ⟨(m - (nakPacketLen c 0 : Nat)).toNat, by omega⟩
+    have hm : m = (nakPacketLen c 0 : Nat) + (r : Int) := by omega
+    have : c.fileFlag = 0 ∨ c.fileFlag = 1 := by omega
+    rcases this with h0 | h1
+    · have hw : fssWidth c.fileFlag = 4 := by simp [fssWidth, h0]
+      refine ⟨r / 8, ?_, ?_, ?_⟩
+      · simp [g, h0, hr, bind, Except.bind, pure, Except.pure]
+      · rw [hstep, hw, hm]; push_cast; omega
+      · rw [hstep, hw, hm]; push_cast; omega
+    · have hw : fssWidth c.fileFlag = 8 := by simp [fssWidth, h1]
+      refine ⟨r / 16, ?_, ?_, ?_⟩
+      · simp [g, h1, hr, bind, Except.bind, pure, Except.pure]
+      · rw [hstep, hw, hm]; push_cast; omega
+      · rw [hstep, hw, hm]; push_cast; omega
+
+/-- the decoder fails, for any octet string whatever, only with `ValueError`,
+    `UnsupportedCfdpVersion` or `InvalidCrc` — never with `struct.error` -/
+theorem C06_nak_documented (d : Bytes) : Documented (Nak.unpack d) := Nak.unpack_documented d
+
+/-- what acceptance means: the buffer is *exactly* the declared PDU, the directive code is NAK, the
+    CRC-16 over it is zero when the flag is set, the data-field length matches the number of decoded
+    segment requests, and every decoded offset fits the selected width -/
+theorem C06_nak_accept_sound (d : Bytes) (k : Nak) (h : Nak.unpack d = .ok k) :
+    d.length = k.packetLen ∧ k.fd.code = 8 ∧ (k.fd.header.conf.crcFlag = 1 → Crc.crc16 d = 0) ∧
+    k.fd.header.dataFieldLen
+      = nakParamLen k.fd.header.conf.fileFlag k.fd.header.conf.crcFlag k.segs.length + 1 ∧
+    SegsFit (fssWidth k.fd.header.conf.fileFlag) k.segs := by
+  obtain ⟨_, _, h3, h4, h5, h6, h7⟩ := Nak.unpack_inv d k h
+  exact ⟨h3, h4, h5, h6, h7⟩
+
+-- non-vacuity: two segment requests, 64-bit offsets with every octet different, CRC, 2-octet IDs
+private def exNak : Nak :=
+  ⟨⟨⟨0, 0, 51, ⟨⟨2, 0x0102⟩, ⟨2, 0x0304⟩, ⟨1, 9⟩, 0, 1, 1, 1, 0⟩⟩, 8⟩, 0x0102030405060708, 0xFFFFFFFFFFFFFFFF,
+    [(0, 0), (0x1112131415161718, 0x2122232425262728)]⟩
+example : WFNak exNak := by decide
+example : Nak.new ⟨⟨2, 0x0102⟩, ⟨2, 0x0304⟩, ⟨1, 9⟩, 0, 1, 1, 0, 0⟩ 0x0102030405060708 0xFFFFFFFFFFFFFFFF
+    [(0, 0), (0x1112131415161718, 0x2122232425262728)] = .ok exNak := by rfl
+example : C05.Spec.octets exNak.fd.header ++ [u8 exNak.fd.code] ++ Spec.nakParams exNak
+    = [0x2B, 0, 51, 0x10, 1, 2, 9, 3, 4, 8,
+       1, 2, 3, 4, 5, 6, 7, 8, 0xFF, 0xFF, 0xFF, 0xFF, 0xFF, 0xFF, 0xFF, 0xFF,
+       0, 0, 0, 0, 0, 0, 0, 0, 0, 0, 0, 0, 0, 0, 0, 0,
+       0x11, 0x12, 0x13, 0x14, 0x15, 0x16, 0x17, 0x18, 0x21, 0x22, 0x23, 0x24, 0x25, 0x26, 0x27, 0x28] := by decide
+example : WFNak ⟨⟨⟨0, 0, 9, ⟨⟨1, 0⟩, ⟨1, 0⟩, ⟨1, 0⟩, 0, 0, 0, 1, 0⟩⟩, 8⟩, 0, 4294967295, []⟩ := by decide
+example : ¬ fits 4 4294967296 := by decide
+example : ¬ fits 8 (-1) := by decide
+
 end SpVerif.Props.C06Fixed
